@@ -13,6 +13,12 @@
 #include "nmtools/array/view/sum.hpp"
 #include "nmtools/array/view/prod.hpp"
 #include "nmtools/array/view/cumsum.hpp"
+#include "nmtools/array/array/sum.hpp"
+#include "nmtools/array/array/prod.hpp"
+#include "nmtools/array/array/cumsum.hpp"
+#include "nmtools/array/array/cumprod.hpp"
+#include "nmtools/array/array/mean.hpp"
+#include <cstdint>
 #include <optional>
 #include "show.hpp"
 
@@ -63,7 +69,34 @@ static std::string stat_axis(const Arg& ax, const std::string& kd, F&& f) {
     return stat_kd(kd, f, vec_of<int>(ax.list));
 }
 
+// ---- eager array:: overload arities (see c08_forms.cpp): values + element type of the evaluated array
+template <typename T> static std::string tname() {
+    if constexpr (std::is_floating_point_v<T>) return sizeof(T) == 4 ? "f32" : "f64";
+    else if constexpr (std::is_integral_v<T>) return std::string(std::is_signed_v<T> ? "i" : "u") + std::to_string(8 * sizeof(T));
+    else return "other";
+}
+template <typename V>
+static std::string tagged(const V& v) {
+    if constexpr (meta::is_maybe_v<V>) { if (!nm::has_value(v)) return "nothing"; return tagged(*v); }
+    else if constexpr (std::is_arithmetic_v<V>) return "ok  ; " + num_str(v) + " ; view=" + tname<V>();
+    else { using T = meta::get_element_type_t<V>; return show(v) + " ; view=" + tname<T>(); }
+}
+#define F(NAME, EXPR) if (form == NAME) return tagged(EXPR);
+static std::string eager_form(const Case& c) {
+    namespace na = nmtools::array;
+    const std::string form = c.args[0].raw.substr(2);
+    auto a = make_array<dyn_t<int8_t>>(c.args[4]);
+    const int ax = (int)c.args[5].val; const ll ini = c.args[6].val;
+    const auto dt = nm::int32; const auto fd = nm::float64;
+    F("asum2", na::sum(a, ax)) F("asum3", na::sum(a, ax, dt)) F("asum4", na::sum(a, ax, dt, ini)) F("asum5", na::sum(a, ax, dt, ini, True))
+    F("aprod2", na::prod(a, ax)) F("aprod3", na::prod(a, ax, dt)) F("aprod4", na::prod(a, ax, dt, ini)) F("aprod5", na::prod(a, ax, dt, ini, True))
+    F("acumsum2", na::cumsum(a, ax)) F("acumsum3", na::cumsum(a, ax, dt)) F("acumprod2", na::cumprod(a, ax)) F("acumprod3", na::cumprod(a, ax, dt))
+    F("amean2", na::mean(a, ax)) F("amean3", na::mean(a, ax, fd)) F("amean4", na::mean(a, ax, fd, True))
+    return "unsupported";
+}
+
 static std::string handle(const Case& c) {
+    if (c.op == "form") return eager_form(c);
     if (c.op == "stat") {
         const std::string fn = c.args[0].raw.substr(2), kd = c.args[1].raw.substr(2);
         auto a = make_darray(c.args[2]); const Arg& ax = c.args[3]; size_t ddof = (size_t)c.args[4].val;
@@ -99,7 +132,7 @@ static std::string handle(const Case& c) {
         // so every step is reduced mod 256 (unsigned wrap-around is defined behaviour)
         const std::string fn = c.args[0].raw.substr(2), kd = c.args[1].raw.substr(2);
         auto a = make_array<dyn_t<unsigned char>>(c.args[2]); const Arg& ax = c.args[3]; const Arg& init = c.args[4];
-        if (fn == "cumsum") return showf(view::cumsum(a, (int)ax.val));
+        if (fn == "cumsum") return showf(view::cumsum(a, (int)ax.val, None));   // 3-argument form: the 2-argument one is ambiguous with array::cumsum here
         auto go = [&](auto ini) -> std::string {
             auto f = [&](const auto& axis, auto... k) {
                 if constexpr (sizeof...(k) == 0) { if (fn == "sum") return showf(view::sum(a, axis, None, ini)); else return showf(view::prod(a, axis, None, ini)); }
